@@ -28,8 +28,9 @@ RespOf(e) == [ok |-> e[3] = 1, sec |-> e[4], pt |-> e[5], flag |-> e[6]]
 
 VARIABLES node, g, last
 
+Base == CHOOSE n \in 0..100000 : ToString(n) = IOEnv.CH_BASE
 Init == /\ node = 0
-        /\ g = InitGhost
+        /\ g = PrefixGhost(Base)
         /\ last = [op |-> "init"]
 
 Next == \E j \in DOMAIN Nodes[node + 1].e :
